@@ -404,3 +404,40 @@ Proof.
   - rewrite one_hot_by_value by exact H. rewrite Nat.eqb_refl. reflexivity.
   - intros j Hj N. rewrite one_hot_by_value by exact Hj. destruct (Nat.eqb_spec j v); [contradiction | reflexivity].
 Qed.
+
+(* ------------------------------------------------------------------ model mutation score: pins *)
+
+(* a vectorized observation always has a leading dimension: the default of `hd 1 o'` in obs_to_tensor is never used
+   (changing it gives an equivalent model; see docs/C11.md, "Model mutation score") *)
+Theorem vectorized_nonempty sp o : is_vectorized sp o = Some true -> o <> [].
+Proof.
+  intros H E. subst o. destruct sp; cbn in H.
+  - destruct (shape_eqb [] s); discriminate H.
+  - discriminate H.
+  - destruct (shape_eqb [] [k]); discriminate H.
+  - destruct (shape_eqb [] s); [discriminate H|].
+    rewrite andb_false_r in H. discriminate H.
+Qed.
+
+Theorem obs_to_tensor_batch_is_leading_dim sp o t :
+  obs_to_tensor sp o = Some (true, t) ->
+  exists n r, maybe_transpose sp o = Some (n :: r) /\ t = n :: space_shape sp.
+Proof.
+  unfold obs_to_tensor. destruct (supported sp); [|discriminate].
+  destruct (maybe_transpose sp o) as [o'|]; [|discriminate].
+  destruct (is_vectorized sp o') as [v|] eqn:V; [|discriminate].
+  intros H. inversion H; subst v. clear H.
+  destruct o' as [|n r]; [exfalso; exact (vectorized_nonempty sp [] V eq_refl)|].
+  exists n, r. split; reflexivity.
+Qed.
+
+(* the harness-side comparator of predicted Box values: one accepted and one rejected pair (relative + absolute tolerance) *)
+Example qclose1_accepts : qclose1 (1 # 100000) 100 (1000005 # 10000) = true /\ qclose1 (1 # 100000) 0 (1 # 100000) = true.
+Proof. split; vm_compute; reflexivity. Qed.
+Example qclose1_rejects : qclose1 (1 # 100000) 100 101 = false /\ qclose1 (1 # 100000) 0 (1 # 10000) = false /\
+                          qclose1 (1 # 100000) (1 # 2) (51 # 100) = false.
+Proof. repeat split; vm_compute; reflexivity. Qed.
+Example check_values_pins :
+  check_values false [(0, 1, 2, 1); (0, 1, 2, 2); (0, 1, -1 # 2, 0)]%Q = [true; false; true] /\
+  check_values true [(0, 2, 1 # 2, 3 # 2); (0, 2, 1 # 2, 1 # 2)]%Q = [true; false].
+Proof. split; vm_compute; reflexivity. Qed.
